@@ -80,9 +80,12 @@ ArgSpec(sig) == [args     |-> SubSeq(ParamNames, 1, sig.npos),
 \* The base function of the session returns all its bindings; it raises when it sees Bad and returns
 \* None when it sees Quiet (a lookup that misses, a procedure called for its effect).
 Passes(cc, v) == (\E i \in 1..Len(cc.pos) : cc.pos[i] = v) \/ (\E i \in 1..Len(cc.kw) : cc.kw[i][2] = v)
-FailSet(cc)  == {i \in 1..Len(FailMarks) : Passes(cc, VStr(FailMarks[i]))}
-HasBad(cc)   == FailSet(cc) # {}
-FailClass(cc) == ExcClassOf[FailMarks[Min(FailSet(cc))]]       \* (the drivers pass at most one marker per call)
+FailMarkSet  == Range(FailMarks)
+IsMark(v)    == v[1] = "s" /\ v[2] \in FailMarkSet
+HasBad(cc)   == (\E i \in 1..Len(cc.pos) : IsMark(cc.pos[i])) \/ (\E i \in 1..Len(cc.kw) : IsMark(cc.kw[i][2]))
+\* (the drivers pass at most one marker per call)
+FailClass(cc) == LET ps == {i \in 1..Len(cc.pos) : IsMark(cc.pos[i])}  ks == {i \in 1..Len(cc.kw) : IsMark(cc.kw[i][2])} IN
+                 ExcClassOf[IF ps # {} THEN cc.pos[Min(ps)][2] ELSE cc.kw[Min(ks)][2][2]]
 HasQuiet(cc) == Passes(cc, Quiet)
 BaseOutcome(sig, cc) == IF ~Valid(sig, cc) THEN Raises("TypeError")
                         ELSE IF HasBad(cc) THEN Raises(FailClass(cc))
